@@ -30,10 +30,23 @@ def scenarios(tier):
     cust = [("AT", "noexclude", ""), ("AT", "exclude", "anything"), ("AT", "ExcludeRegion", "disable"),
             ("AT", "noexclude", "", True)]
     base = dict(prop="C14", monitors=("c14", "c01", "c03"), regions=["R", "D"], emax=1, key_depth=False, track_keys=False)
+    empty = [{"command": "PrintAll", "parameterPattern": "", "action": "disable_exclusion", "description": ""},
+             {"command": "SkipRegions", "parameterPattern": "^\\s*(now)?\\s*$", "action": "enable_exclusion", "description": ""},
+             {"command": "ExcludeRegion", "parameterPattern": "^\\s*(disable|off)(\\s|$)", "action": "disable_exclusion",
+              "description": ""}]
     return [
         Scenario("c14-default", World, base, moves + dflt, max_states=150000 if q else 3000000),
         Scenario("c14-custom", World, dict(base, at=CUSTOM, regions=["R"]), moves[:6] + cust,
                  max_states=150000 if q else 3000000),
+        Scenario("c14-empty-patterns", World, dict(base, at=empty, regions=["R"]),
+                 moves[:6] + [("AT", "PrintAll", ""), ("AT", "SkipRegions", ""), ("AT", "SkipRegions", "now"),
+                              ("AT", "SkipRegions", "later"), ("AT", "PrintAll", "x")],
+                 max_states=150000 if q else 3000000,
+                 note="patterns that match the empty parameter string (blank pattern field, optional keyword)"),
+        Scenario("c14-arcs", World, dict(base, regions=["R"]),
+                 [("TRAVEL", "O1"), ("TRAVEL", "O2"), ("TRAVEL", "I1"), ("ARC", "clear"), ("ARC", "under"), ("ARC", "into"),
+                  ("XONLY", "I1"), ("YONLY", "I1"), ("AT", "ExcludeRegion", "disable"), ("AT", "ExcludeRegion", "enable")],
+                 max_states=150000 if q else 3000000, note="arcs executed while disabled must keep the position tracked"),
         Scenario("c14-relative", World, dict(base, regions=["R"], guard=no_relative_disable),
                  REL_MENU, max_depth=10 if q else 14, max_states=3000000,
                  note="relative moves after re-enabling; disable is not issued inside an episode while in G91 (D17)"),
